@@ -436,7 +436,10 @@ Inductive label :=
 | LCloseSession (s : side)
 | LDeliver (s : side) (c : N)     (* s = the RECEIVING side *)
 | LFail (c : N)
-| LTick (d : Z).
+| LTick (d : Z)
+| LBreak (c : N)                  (* the connection breaks: what is in flight is lost and writes fail from now on,
+                                     but neither read loop has noticed yet *)
+| LNotice (s : side) (c : N).     (* the read loop of side s on the broken connection c sees the error *)
 
 (* one label, run to quiescence.  [ch] = the connections pickRandConn drew during this
    label, in order (read off the wire tap by the harness). *)
@@ -493,6 +496,20 @@ Definition step_core (y : sys) (l : label) (ch : list N) : sys * list ev :=
       let '(y1, ch1, e1) := fire_timers 64 y0 SA ch in
       let '(y2, _, e2) := fire_timers 64 y1 SB ch1 in
       (y2, e1 ++ e2 ++ [ERet R_OK 0 []])
+  | LBreak c =>
+      match nthN (N.to_nat c) (sy_conns y) with
+      | None => (y, [ERet R_ERR 0 []])
+      | Some cn =>
+          (set_conns y (setN (N.to_nat c) (mkC [] [] (c_clA cn) (c_clB cn) true) (sy_conns y)), [ERet R_OK 0 []])
+      end
+  | LNotice s c =>
+      match nthN (N.to_nat c) (sy_conns y) with
+      | None => (y, [ERet R_ERR 0 []])
+      | Some cn =>
+          if c_failed cn && negb (conn_closed_end cn s) then
+            let '(y1, evs) := deplex_error y s c in (y1, evs ++ [ERet R_OK 0 []])
+          else (y, [ERet R_ERR 1 []])
+      end
   end.
 
 Definition step (y : sys) (l : label) (ch : list N) : sys * list ev :=
